@@ -58,6 +58,10 @@ func (d Decimal) Ceil(dp int) Decimal {
 		return zero(d.Signbit())
 	}
 
+	if dp < minRoundingPlaces {
+		dp = minRoundingPlaces
+	}
+
 	dp = dp*-1 + exponentBias
 	iexp := int(exp)
 
@@ -68,6 +72,10 @@ func (d Decimal) Ceil(dp int) Decimal {
 	if iexp < dp-maxDigits {
 		if d.Signbit() {
 			return zero(d.Signbit())
+		}
+
+		if dp > maxBiasedExponent {
+			return composeScaled(false, uint128{1, 0}, int16(dp))
 		}
 
 		return compose(false, uint128{1, 0}, int16(dp))
@@ -113,7 +121,7 @@ func (d Decimal) Ceil(dp int) Decimal {
 	}
 
 	if exp > maxBiasedExponent {
-		return inf(neg)
+		return composeScaled(neg, sig, exp)
 	}
 
 	return compose(neg, sig, exp)
@@ -139,6 +147,10 @@ func (d Decimal) Floor(dp int) Decimal {
 		return zero(d.Signbit())
 	}
 
+	if dp < minRoundingPlaces {
+		dp = minRoundingPlaces
+	}
+
 	dp = dp*-1 + exponentBias
 	iexp := int(exp)
 
@@ -149,6 +161,10 @@ func (d Decimal) Floor(dp int) Decimal {
 	if iexp < dp-maxDigits {
 		if !d.Signbit() {
 			return zero(d.Signbit())
+		}
+
+		if dp > maxBiasedExponent {
+			return composeScaled(true, uint128{1, 0}, int16(dp))
 		}
 
 		return compose(true, uint128{1, 0}, int16(dp))
@@ -194,7 +210,7 @@ func (d Decimal) Floor(dp int) Decimal {
 	}
 
 	if exp > maxBiasedExponent {
-		return inf(neg)
+		return composeScaled(neg, sig, exp)
 	}
 
 	return compose(neg, sig, exp)
@@ -219,6 +235,10 @@ func (d Decimal) Round(dp int, mode RoundingMode) Decimal {
 
 	if sig[0]|sig[1] == 0 {
 		return zero(d.Signbit())
+	}
+
+	if dp < minRoundingPlaces {
+		dp = minRoundingPlaces
 	}
 
 	dp = dp*-1 + exponentBias
@@ -253,7 +273,30 @@ func (d Decimal) Round(dp int, mode RoundingMode) Decimal {
 	sig, exp = mode.round(false, neg, sig, int16(iexp), trunc, digit)
 
 	if exp > maxBiasedExponent {
-		return inf(neg)
+		return composeScaled(neg, sig, exp)
+	}
+
+	return compose(neg, sig, exp)
+}
+
+// minRoundingPlaces is the smallest useful number of decimal places: every
+// finite Decimal is below a tenth of 10**-minRoundingPlaces, so all smaller
+// values behave identically (and can no longer overflow the int16 exponent
+// arithmetic).
+const minRoundingPlaces = -(maxUnbiasedExponent + maxDigits + 1)
+
+// composeScaled returns sig × 10**(exp-exponentBias) where exp is greater than
+// the maximum exponent, by moving the excess into the significand. If the value
+// cannot be represented the result is infinity.
+func composeScaled(neg bool, sig uint128, exp int16) Decimal {
+	for exp > maxBiasedExponent {
+		sig = sig.mul64(10)
+
+		if sig[1] > 0x0002_7fff_ffff_ffff {
+			return inf(neg)
+		}
+
+		exp--
 	}
 
 	return compose(neg, sig, exp)
